@@ -75,6 +75,7 @@ mod vharness {
     fn ev() -> Evaluator<'static, 'static> { Evaluator { state_stack: Vec::new(), value_stack: Vec::new(), cmp_ord_stack: Vec::new(), array_stack: Vec::new() } }
     fn keys(n: usize) -> Keys<'static> { let mut v = Vec::with_capacity(n); let mut i = 0; while i < n { let c = OnceCell::new(); let _ = c.set(ValueData::Number(i as f64 * 10.0)); v.push(c); i += 1; } Rc::new(v) }
     fn sorted_of(p: &[usize]) -> Sorted { let mut v = Vec::with_capacity(p.len()); let mut i = 0; while i < p.len() { v.push(Cell::new(p[i])); i += 1; } Rc::new(v) }
+    fn ord_of(k: u8) -> Ordering { if k == 0 { Ordering::Less } else if k == 1 { Ordering::Equal } else { Ordering::Greater } }
     fn any_ord() -> Ordering { let k: u8 = kani::any(); kani::assume(k < 3); if k == 0 { Ordering::Less } else if k == 1 { Ordering::Equal } else { Ordering::Greater } }
     fn arr(src: u8, n: usize) -> Gc<ArrayData<'static>> {
         let mut v: Vec<Gc<ThunkData<'static>>> = Vec::with_capacity(n); let mut i = 0;
@@ -129,17 +130,20 @@ mod vharness {
         core::mem::forget(e);
     }
 
-    //@harness props=C17,C01 strength=bounded bound="window of 2..5 positions inside a 7-element index vector, every outcome of the comparisons" clause="quick sort step 2 (partition): afterwards the window holds the elements that compared less than the pivot, in their original relative order, then the pivot, then the others in their original relative order (stability); positions outside the window are untouched; exactly the comparison results of this window are consumed; the two sides are scheduled for sorting exactly when they have more than one element" timeout=1500
-    #[kani::proof]
-    #[kani::unwind(9)]
-    fn quick_sort_2_contract() {
+    // one instance per window length: the real function allocates Vec::with_capacity(len - 1); a symbolic
+    // capacity exhausted the 14 GB cap (measured), a concrete one does not
+    fn quick_sort_2(len: usize) {
+        // every window offset, concretely (a symbolic offset makes every sorted[start + ..] access a
+        // symbolic-index access: CBMC grew past 30 GB on the len-5 instance - measured)
+        let mut pow = 1usize; let mut q = 1; while q < len { pow *= 3; q += 1; }
+        let mut start = 0; while start + len <= 7 { let mut code = 0; while code < pow { quick_sort_2_at(start, len, code); code += 1; } start += 1; }
+    }
+    fn quick_sort_2_at(start: usize, len: usize, code: usize) {
         let perm = [3usize, 0, 6, 2, 5, 1, 4];
-        let (start, len): (usize, usize) = (kani::any(), kani::any());
-        kani::assume(len >= 2 && len <= N && start <= 7 - len);
         let mut e = ev();
         e.cmp_ord_stack.push(Ordering::Greater);                      // belongs to an enclosing computation
         let mut ords = [Ordering::Equal; N];
-        let mut k = 1; while k < len { ords[k] = any_ord(); e.cmp_ord_stack.push(ords[k]); k += 1; }
+        let mut c = code; let mut k = 1; while k < len { ords[k] = ord_of((c % 3) as u8); c /= 3; e.cmp_ord_stack.push(ords[k]); k += 1; }
         let sorted = sorted_of(&perm);
         e.do_std_sort_quick_sort_2(keys(7), sorted.clone(), start..start + len);
         assert!(e.cmp_ord_stack.len() == 1 && e.cmp_ord_stack[0] == Ordering::Greater, "C17,C01:sortset:partition-consumes-exactly-its-own-comparison-results");
@@ -164,6 +168,23 @@ mod vharness {
         }
         core::mem::forget(e);
     }
+
+    //@harness props=C17,C01 strength=bounded bound="window of 2 positions at every offset inside a 7-element index vector, every outcome of the comparisons, executed concretely" clause="quick sort step 2 (partition): afterwards the window holds the elements that compared less than the pivot, in their original relative order, then the pivot, then the others in their original relative order (stability); positions outside the window are untouched; exactly the comparison results of this window are consumed; the two sides are scheduled for sorting exactly when they have more than one element" timeout=900
+    #[kani::proof]
+    #[kani::unwind(9)]
+    fn quick_sort_2_len2() { quick_sort_2(2); }
+    //@harness props=C17,C01 strength=bounded bound="window of 3 positions at every offset inside a 7-element index vector, every outcome of the comparisons, executed concretely" clause="quick sort step 2 (partition): afterwards the window holds the elements that compared less than the pivot, in their original relative order, then the pivot, then the others in their original relative order (stability); positions outside the window are untouched; exactly the comparison results of this window are consumed; the two sides are scheduled for sorting exactly when they have more than one element" timeout=900
+    #[kani::proof]
+    #[kani::unwind(12)]
+    fn quick_sort_2_len3() { quick_sort_2(3); }
+    //@harness props=C17,C01 strength=bounded bound="window of 4 positions at every offset inside a 7-element index vector, every outcome of the comparisons, executed concretely" clause="quick sort step 2 (partition): afterwards the window holds the elements that compared less than the pivot, in their original relative order, then the pivot, then the others in their original relative order (stability); positions outside the window are untouched; exactly the comparison results of this window are consumed; the two sides are scheduled for sorting exactly when they have more than one element" timeout=900
+    #[kani::proof]
+    #[kani::unwind(30)]
+    fn quick_sort_2_len4() { quick_sort_2(4); }
+    //@harness props=C17,C01 strength=bounded bound="window of 5 positions at every offset inside a 7-element index vector, every outcome of the comparisons, executed concretely" clause="quick sort step 2 (partition): afterwards the window holds the elements that compared less than the pivot, in their original relative order, then the pivot, then the others in their original relative order (stability); positions outside the window are untouched; exactly the comparison results of this window are consumed; the two sides are scheduled for sorting exactly when they have more than one element" timeout=900
+    #[kani::proof]
+    #[kani::unwind(84)]
+    fn quick_sort_2_len5() { quick_sort_2(5); }
 
     fn unmerged(left: &[usize], li: usize, right: &[usize], ri: usize) -> Unmerged {
         Rc::new((Cell::new(li), left.to_vec().into_boxed_slice(), Cell::new(ri), right.to_vec().into_boxed_slice()))
@@ -197,10 +218,12 @@ mod vharness {
     #[kani::proof]
     #[kani::unwind(9)]
     fn merge_pre_compare_contract() {
+        // every (run lengths, progress) combination, concretely: 81 small executions
+        let mut nl = 1; while nl <= 3 { let mut nr = 1; while nr <= 3 { let mut li = 0; while li <= nl { let mut ri = 0; while ri <= nr { merge_pre_at(nl, nr, li, ri); ri += 1; } li += 1; } nr += 1; } nl += 1; }
+    }
+    fn merge_pre_at(nl: usize, nr: usize, li: usize, ri: usize) {
         let perm = [9usize, 9, 9, 9, 9, 9, 9];
         let left = [3usize, 0, 6]; let right = [2usize, 5, 1];
-        let (nl, nr, li, ri): (usize, usize, usize, usize) = (kani::any(), kani::any(), kani::any(), kani::any());
-        kani::assume(nl >= 1 && nl <= 3 && nr >= 1 && nr <= 3 && li <= nl && ri <= nr && !(li == nl && ri == nr && false));
         let mut e = ev();
         let sorted = sorted_of(&perm);
         let ks = keys(7);
@@ -225,10 +248,13 @@ mod vharness {
 
     /// which of the three two-pointer walks
     #[derive(Clone, Copy, PartialEq, Eq)] enum W { Inter, Union, Diff }
-    fn two_pointer(which: W) {
-        let (na, nb, i, j): (usize, usize, usize, usize) = (kani::any(), kani::any(), kani::any(), kani::any());
-        kani::assume(na >= 1 && na <= 3 && nb >= 1 && nb <= 3 && i < na && j < nb);
-        let o = any_ord();
+    fn two_pointer(which: W, na: usize, nb: usize) {
+        // every position pair, concretely (a symbolic (i, j) makes the tail copy `a[i..]` a symbolic-range
+        // memcpy: CBMC's propositional reduction grew to 29 GB on the 3 x 3 instance - measured)
+        let mut i = 0; while i < na { let mut j = 0; while j < nb { let mut k = 0; while k < 3 { two_pointer_at(which, na, nb, i, j, ord_of(k)); k += 1; } j += 1; } i += 1; }
+    }
+    fn two_pointer_at(which: W, na: usize, nb: usize, i: usize, j: usize, o: Ordering) {
+        
         let (a, b) = (arr(1, na), arr(2, nb));
         let mut e = ev();
         e.cmp_ord_stack.push(o);
@@ -267,24 +293,116 @@ mod vharness {
         }
         core::mem::forget(e);
     }
-    //@harness props=C17,C01 strength=bounded bound="sets of 1..3 elements each, any positions (i, j), any comparison outcome" clause="setInter step: equal keys => the element of A is emitted and both sides advance; less => A advances; greater => B advances; the walk ends when either side is exhausted, else the keys of the new heads are compared next" timeout=900
+    //@harness props=C17,C01 strength=bounded bound="sets of 1 and 1 elements, every position pair (i, j) and every comparison outcome, executed concretely" clause="setInter step: equal keys => the element of A is emitted and both sides advance; less => A advances; greater => B advances; the walk ends when either side is exhausted, else the keys of the new heads are compared next" timeout=600
     #[kani::proof]
-    #[kani::unwind(6)]
-    fn set_inter_step_contract() { two_pointer(W::Inter); }
-    //@harness props=C17,C01 strength=bounded bound="sets of 1..3 elements each, any positions (i, j), any comparison outcome" clause="setUnion step: less => A's element emitted; equal => A's element emitted once, both advance; greater => B's element emitted; when one side is exhausted the rest of the other is appended in order" timeout=900
+    #[kani::unwind(8)]
+    fn set_inter_step_1_1() { two_pointer(W::Inter, 1, 1); }
+    //@harness props=C17,C01 strength=bounded tier=thorough bound="sets of 1 and 2 elements, every position pair (i, j) and every comparison outcome, executed concretely" clause="setInter step: equal keys => the element of A is emitted and both sides advance; less => A advances; greater => B advances; the walk ends when either side is exhausted, else the keys of the new heads are compared next" timeout=600
     #[kani::proof]
-    #[kani::unwind(6)]
-    fn set_union_step_contract() { two_pointer(W::Union); }
-    //@harness props=C17,C01 strength=bounded bound="sets of 1..3 elements each, any positions (i, j), any comparison outcome" clause="setDiff step: less => A's element emitted; equal => dropped, both advance; greater => B advances; when B is exhausted the rest of A is appended, when A is exhausted the walk ends" timeout=900
+    #[kani::unwind(8)]
+    fn set_inter_step_1_2() { two_pointer(W::Inter, 1, 2); }
+    //@harness props=C17,C01 strength=bounded tier=thorough bound="sets of 1 and 3 elements, every position pair (i, j) and every comparison outcome, executed concretely" clause="setInter step: equal keys => the element of A is emitted and both sides advance; less => A advances; greater => B advances; the walk ends when either side is exhausted, else the keys of the new heads are compared next" timeout=600
     #[kani::proof]
-    #[kani::unwind(6)]
-    fn set_diff_step_contract() { two_pointer(W::Diff); }
+    #[kani::unwind(8)]
+    fn set_inter_step_1_3() { two_pointer(W::Inter, 1, 3); }
+    //@harness props=C17,C01 strength=bounded tier=thorough bound="sets of 2 and 1 elements, every position pair (i, j) and every comparison outcome, executed concretely" clause="setInter step: equal keys => the element of A is emitted and both sides advance; less => A advances; greater => B advances; the walk ends when either side is exhausted, else the keys of the new heads are compared next" timeout=600
+    #[kani::proof]
+    #[kani::unwind(8)]
+    fn set_inter_step_2_1() { two_pointer(W::Inter, 2, 1); }
+    //@harness props=C17,C01 strength=bounded tier=thorough bound="sets of 2 and 2 elements, every position pair (i, j) and every comparison outcome, executed concretely" clause="setInter step: equal keys => the element of A is emitted and both sides advance; less => A advances; greater => B advances; the walk ends when either side is exhausted, else the keys of the new heads are compared next" timeout=600
+    #[kani::proof]
+    #[kani::unwind(8)]
+    fn set_inter_step_2_2() { two_pointer(W::Inter, 2, 2); }
+    //@harness props=C17,C01 strength=bounded bound="sets of 2 and 3 elements, every position pair (i, j) and every comparison outcome, executed concretely" clause="setInter step: equal keys => the element of A is emitted and both sides advance; less => A advances; greater => B advances; the walk ends when either side is exhausted, else the keys of the new heads are compared next" timeout=600
+    #[kani::proof]
+    #[kani::unwind(8)]
+    fn set_inter_step_2_3() { two_pointer(W::Inter, 2, 3); }
+    //@harness props=C17,C01 strength=bounded bound="sets of 3 and 1 elements, every position pair (i, j) and every comparison outcome, executed concretely" clause="setInter step: equal keys => the element of A is emitted and both sides advance; less => A advances; greater => B advances; the walk ends when either side is exhausted, else the keys of the new heads are compared next" timeout=600
+    #[kani::proof]
+    #[kani::unwind(8)]
+    fn set_inter_step_3_1() { two_pointer(W::Inter, 3, 1); }
+    //@harness props=C17,C01 strength=bounded tier=thorough bound="sets of 3 and 2 elements, every position pair (i, j) and every comparison outcome, executed concretely" clause="setInter step: equal keys => the element of A is emitted and both sides advance; less => A advances; greater => B advances; the walk ends when either side is exhausted, else the keys of the new heads are compared next" timeout=600
+    #[kani::proof]
+    #[kani::unwind(8)]
+    fn set_inter_step_3_2() { two_pointer(W::Inter, 3, 2); }
+    //@harness props=C17,C01 strength=bounded bound="sets of 3 and 3 elements, every position pair (i, j) and every comparison outcome, executed concretely" clause="setInter step: equal keys => the element of A is emitted and both sides advance; less => A advances; greater => B advances; the walk ends when either side is exhausted, else the keys of the new heads are compared next" timeout=600
+    #[kani::proof]
+    #[kani::unwind(8)]
+    fn set_inter_step_3_3() { two_pointer(W::Inter, 3, 3); }
+    //@harness props=C17,C01 strength=bounded bound="sets of 1 and 1 elements, every position pair (i, j) and every comparison outcome, executed concretely" clause="setUnion step: less => A's element emitted; equal => A's element emitted once, both advance; greater => B's element emitted; when one side is exhausted the rest of the other is appended in order" timeout=600
+    #[kani::proof]
+    #[kani::unwind(8)]
+    fn set_union_step_1_1() { two_pointer(W::Union, 1, 1); }
+    //@harness props=C17,C01 strength=bounded tier=thorough bound="sets of 1 and 2 elements, every position pair (i, j) and every comparison outcome, executed concretely" clause="setUnion step: less => A's element emitted; equal => A's element emitted once, both advance; greater => B's element emitted; when one side is exhausted the rest of the other is appended in order" timeout=600
+    #[kani::proof]
+    #[kani::unwind(8)]
+    fn set_union_step_1_2() { two_pointer(W::Union, 1, 2); }
+    //@harness props=C17,C01 strength=bounded tier=thorough bound="sets of 1 and 3 elements, every position pair (i, j) and every comparison outcome, executed concretely" clause="setUnion step: less => A's element emitted; equal => A's element emitted once, both advance; greater => B's element emitted; when one side is exhausted the rest of the other is appended in order" timeout=600
+    #[kani::proof]
+    #[kani::unwind(8)]
+    fn set_union_step_1_3() { two_pointer(W::Union, 1, 3); }
+    //@harness props=C17,C01 strength=bounded tier=thorough bound="sets of 2 and 1 elements, every position pair (i, j) and every comparison outcome, executed concretely" clause="setUnion step: less => A's element emitted; equal => A's element emitted once, both advance; greater => B's element emitted; when one side is exhausted the rest of the other is appended in order" timeout=600
+    #[kani::proof]
+    #[kani::unwind(8)]
+    fn set_union_step_2_1() { two_pointer(W::Union, 2, 1); }
+    //@harness props=C17,C01 strength=bounded tier=thorough bound="sets of 2 and 2 elements, every position pair (i, j) and every comparison outcome, executed concretely" clause="setUnion step: less => A's element emitted; equal => A's element emitted once, both advance; greater => B's element emitted; when one side is exhausted the rest of the other is appended in order" timeout=600
+    #[kani::proof]
+    #[kani::unwind(8)]
+    fn set_union_step_2_2() { two_pointer(W::Union, 2, 2); }
+    //@harness props=C17,C01 strength=bounded bound="sets of 2 and 3 elements, every position pair (i, j) and every comparison outcome, executed concretely" clause="setUnion step: less => A's element emitted; equal => A's element emitted once, both advance; greater => B's element emitted; when one side is exhausted the rest of the other is appended in order" timeout=600
+    #[kani::proof]
+    #[kani::unwind(8)]
+    fn set_union_step_2_3() { two_pointer(W::Union, 2, 3); }
+    //@harness props=C17,C01 strength=bounded bound="sets of 3 and 1 elements, every position pair (i, j) and every comparison outcome, executed concretely" clause="setUnion step: less => A's element emitted; equal => A's element emitted once, both advance; greater => B's element emitted; when one side is exhausted the rest of the other is appended in order" timeout=600
+    #[kani::proof]
+    #[kani::unwind(8)]
+    fn set_union_step_3_1() { two_pointer(W::Union, 3, 1); }
+    //@harness props=C17,C01 strength=bounded tier=thorough bound="sets of 3 and 2 elements, every position pair (i, j) and every comparison outcome, executed concretely" clause="setUnion step: less => A's element emitted; equal => A's element emitted once, both advance; greater => B's element emitted; when one side is exhausted the rest of the other is appended in order" timeout=600
+    #[kani::proof]
+    #[kani::unwind(8)]
+    fn set_union_step_3_2() { two_pointer(W::Union, 3, 2); }
+    //@harness props=C17,C01 strength=bounded bound="sets of 3 and 3 elements, every position pair (i, j) and every comparison outcome, executed concretely" clause="setUnion step: less => A's element emitted; equal => A's element emitted once, both advance; greater => B's element emitted; when one side is exhausted the rest of the other is appended in order" timeout=600
+    #[kani::proof]
+    #[kani::unwind(8)]
+    fn set_union_step_3_3() { two_pointer(W::Union, 3, 3); }
+    //@harness props=C17,C01 strength=bounded bound="sets of 1 and 1 elements, every position pair (i, j) and every comparison outcome, executed concretely" clause="setDiff step: less => A's element emitted; equal => dropped, both advance; greater => B advances; when B is exhausted the rest of A is appended, when A is exhausted the walk ends" timeout=600
+    #[kani::proof]
+    #[kani::unwind(8)]
+    fn set_diff_step_1_1() { two_pointer(W::Diff, 1, 1); }
+    //@harness props=C17,C01 strength=bounded tier=thorough bound="sets of 1 and 2 elements, every position pair (i, j) and every comparison outcome, executed concretely" clause="setDiff step: less => A's element emitted; equal => dropped, both advance; greater => B advances; when B is exhausted the rest of A is appended, when A is exhausted the walk ends" timeout=600
+    #[kani::proof]
+    #[kani::unwind(8)]
+    fn set_diff_step_1_2() { two_pointer(W::Diff, 1, 2); }
+    //@harness props=C17,C01 strength=bounded tier=thorough bound="sets of 1 and 3 elements, every position pair (i, j) and every comparison outcome, executed concretely" clause="setDiff step: less => A's element emitted; equal => dropped, both advance; greater => B advances; when B is exhausted the rest of A is appended, when A is exhausted the walk ends" timeout=600
+    #[kani::proof]
+    #[kani::unwind(8)]
+    fn set_diff_step_1_3() { two_pointer(W::Diff, 1, 3); }
+    //@harness props=C17,C01 strength=bounded tier=thorough bound="sets of 2 and 1 elements, every position pair (i, j) and every comparison outcome, executed concretely" clause="setDiff step: less => A's element emitted; equal => dropped, both advance; greater => B advances; when B is exhausted the rest of A is appended, when A is exhausted the walk ends" timeout=600
+    #[kani::proof]
+    #[kani::unwind(8)]
+    fn set_diff_step_2_1() { two_pointer(W::Diff, 2, 1); }
+    //@harness props=C17,C01 strength=bounded tier=thorough bound="sets of 2 and 2 elements, every position pair (i, j) and every comparison outcome, executed concretely" clause="setDiff step: less => A's element emitted; equal => dropped, both advance; greater => B advances; when B is exhausted the rest of A is appended, when A is exhausted the walk ends" timeout=600
+    #[kani::proof]
+    #[kani::unwind(8)]
+    fn set_diff_step_2_2() { two_pointer(W::Diff, 2, 2); }
+    //@harness props=C17,C01 strength=bounded bound="sets of 2 and 3 elements, every position pair (i, j) and every comparison outcome, executed concretely" clause="setDiff step: less => A's element emitted; equal => dropped, both advance; greater => B advances; when B is exhausted the rest of A is appended, when A is exhausted the walk ends" timeout=600
+    #[kani::proof]
+    #[kani::unwind(8)]
+    fn set_diff_step_2_3() { two_pointer(W::Diff, 2, 3); }
+    //@harness props=C17,C01 strength=bounded bound="sets of 3 and 1 elements, every position pair (i, j) and every comparison outcome, executed concretely" clause="setDiff step: less => A's element emitted; equal => dropped, both advance; greater => B advances; when B is exhausted the rest of A is appended, when A is exhausted the walk ends" timeout=600
+    #[kani::proof]
+    #[kani::unwind(8)]
+    fn set_diff_step_3_1() { two_pointer(W::Diff, 3, 1); }
+    //@harness props=C17,C01 strength=bounded tier=thorough bound="sets of 3 and 2 elements, every position pair (i, j) and every comparison outcome, executed concretely" clause="setDiff step: less => A's element emitted; equal => dropped, both advance; greater => B advances; when B is exhausted the rest of A is appended, when A is exhausted the walk ends" timeout=600
+    #[kani::proof]
+    #[kani::unwind(8)]
+    fn set_diff_step_3_2() { two_pointer(W::Diff, 3, 2); }
+    //@harness props=C17,C01 strength=bounded bound="sets of 3 and 3 elements, every position pair (i, j) and every comparison outcome, executed concretely" clause="setDiff step: less => A's element emitted; equal => dropped, both advance; greater => B advances; when B is exhausted the rest of A is appended, when A is exhausted the walk ends" timeout=600
+    #[kani::proof]
+    #[kani::unwind(8)]
+    fn set_diff_step_3_3() { two_pointer(W::Diff, 3, 3); }
 
-    //@harness props=C17,C01 strength=bounded bound="array of 1..4 elements, any search window start <= mid <= end, any comparison outcome" clause="setMember binary search: the probe is the middle of the window; equal => true; x less than the probe => continue in [start, mid-1] or answer false when mid == start; greater => continue in [mid+1, end] or false when mid == end; the window always shrinks and stays inside the array" timeout=900
-    #[kani::proof]
-    #[kani::unwind(7)]
-    fn set_member_contract() {
-        let n: usize = kani::any(); kani::assume(n >= 1 && n <= 4);
+    fn set_member(n: usize) {
         let (start, end): (usize, usize) = (kani::any(), kani::any());
         kani::assume(start <= end && end < n);
         let a = arr(1, n);
@@ -314,11 +432,24 @@ mod vharness {
         core::mem::forget(e); core::mem::forget(e2);
     }
 
-    //@harness props=C17,C01 strength=bounded bound="array of 2..4 elements, any position, any comparison outcome" clause="minArray / maxArray scan step: the best-so-far changes only on a STRICT improvement (so the first minimal / maximal element is the one returned), its key stays on the stack and the other is dropped; after the last element the best element itself is evaluated, otherwise the next element's key is requested" timeout=900
+    //@harness props=C17,C01 strength=bounded bound="array of 1 elements, any search window start <= mid <= end, any comparison outcome" clause="setMember binary search: the probe is the middle of the window; equal => true; x less than the probe => continue in [start, mid-1] or answer false when mid == start; greater => continue in [mid+1, end] or false when mid == end; the window always shrinks and stays inside the array" timeout=900
     #[kani::proof]
     #[kani::unwind(7)]
-    fn min_max_scan_contract() {
-        let n: usize = kani::any(); kani::assume(n >= 2 && n <= 4);
+    fn set_member_n1() { set_member(1); }
+    //@harness props=C17,C01 strength=bounded bound="array of 2 elements, any search window start <= mid <= end, any comparison outcome" clause="setMember binary search: the probe is the middle of the window; equal => true; x less than the probe => continue in [start, mid-1] or answer false when mid == start; greater => continue in [mid+1, end] or false when mid == end; the window always shrinks and stays inside the array" timeout=900
+    #[kani::proof]
+    #[kani::unwind(7)]
+    fn set_member_n2() { set_member(2); }
+    //@harness props=C17,C01 strength=bounded bound="array of 3 elements, any search window start <= mid <= end, any comparison outcome" clause="setMember binary search: the probe is the middle of the window; equal => true; x less than the probe => continue in [start, mid-1] or answer false when mid == start; greater => continue in [mid+1, end] or false when mid == end; the window always shrinks and stays inside the array" timeout=900
+    #[kani::proof]
+    #[kani::unwind(7)]
+    fn set_member_n3() { set_member(3); }
+    //@harness props=C17,C01 strength=bounded bound="array of 4 elements, any search window start <= mid <= end, any comparison outcome" clause="setMember binary search: the probe is the middle of the window; equal => true; x less than the probe => continue in [start, mid-1] or answer false when mid == start; greater => continue in [mid+1, end] or false when mid == end; the window always shrinks and stays inside the array" timeout=900
+    #[kani::proof]
+    #[kani::unwind(7)]
+    fn set_member_n4() { set_member(4); }
+
+    fn min_max_scan(n: usize) {
         let (cur, best): (usize, usize) = (kani::any(), kani::any());
         kani::assume(cur >= 1 && cur < n && best < cur);
         let is_min: bool = kani::any();
@@ -350,6 +481,19 @@ mod vharness {
         }
         core::mem::forget(e);
     }
+
+    //@harness props=C17,C01 strength=bounded bound="array of 2 elements, any position, any comparison outcome" clause="minArray / maxArray scan step: the best-so-far changes only on a STRICT improvement (so the first minimal / maximal element is the one returned), its key stays on the stack and the other is dropped; after the last element the best element itself is evaluated, otherwise the next element's key is requested" timeout=900
+    #[kani::proof]
+    #[kani::unwind(7)]
+    fn min_max_scan_n2() { min_max_scan(2); }
+    //@harness props=C17,C01 strength=bounded bound="array of 3 elements, any position, any comparison outcome" clause="minArray / maxArray scan step: the best-so-far changes only on a STRICT improvement (so the first minimal / maximal element is the one returned), its key stays on the stack and the other is dropped; after the last element the best element itself is evaluated, otherwise the next element's key is requested" timeout=900
+    #[kani::proof]
+    #[kani::unwind(7)]
+    fn min_max_scan_n3() { min_max_scan(3); }
+    //@harness props=C17,C01 strength=bounded bound="array of 4 elements, any position, any comparison outcome" clause="minArray / maxArray scan step: the best-so-far changes only on a STRICT improvement (so the first minimal / maximal element is the one returned), its key stays on the stack and the other is dropped; after the last element the best element itself is evaluated, otherwise the next element's key is requested" timeout=900
+    #[kani::proof]
+    #[kani::unwind(7)]
+    fn min_max_scan_n4() { min_max_scan(4); }
 
     //@harness props=C17,C01 strength=bounded expect=fail clause="canary"
     #[kani::proof]
